@@ -143,6 +143,20 @@ def extra_vectors(name, rng, n=6):
         for sf, ff in ((0.00001, 1.0), (0.0005, 0.25), (1e-7, 0.999999), (rng.random() / 10 ** rng.randint(3, 9), rng.random())):
             out.append(('{"report_to": "default", "max_age": 2592000, "success_fraction": %s, "failure_fraction": %s}' % (format(sf, '.12f').rstrip('0'), repr(ff))).encode('ascii'))
         return out
+    if short == 'TlsHandshakeClientHello':
+        # client hellos carrying the signalling suites (RFC 7507 TLS_FALLBACK_SCSV, RFC 5746 TLS_EMPTY_RENEGOTIATION_INFO_SCSV),
+        # one, the other, both: the repository vectors carry neither
+        from harness import impl, tlsgen
+        out = []
+        impl.PARSE_BACK = False
+        try:
+            for scsv in ([0x5600], [0x00ff], [0x5600, 0x00ff], [0x00ff, 0x5600]):
+                o = impl.impl_line(tlsgen.client_hello(rng, impl, scsv=scsv)[0])
+                if o.startswith('OK '):
+                    out.append(bytes.fromhex(o[3:]))
+        finally:
+            impl.PARSE_BACK = True
+        return out
     if short in ('DnsNameUncompressed', 'DnsRecordMx'):
         # internationalised names: A-labels (xn--) on the wire, U-labels in the object
         names = [[b'xn--bcher-kva', b'example'], [b'xn--r8jz45g', b'xn--zckzah'], [b'www', b'xn--mnchen-3ya', b'de']]
